@@ -155,7 +155,7 @@ def judgeBuild (d : DictRt) (ops : String) (h : Header) (as : List AVP) (impl : 
     | .ok msg => s!"rd=ok {showHdr msg.hdr} {showAVPs msg.avps} reser={toHex msg.enc}"
     | .err _ => "rd=err"
     | .panic p => s!"rd=panic:{p}"
-  let modelOut := s!"ser={toHex ser} hlens={",".intercalate (hlens.map toString)} wt=same {rdOut}"
+  let modelOut := s!"ser={toHex ser} hlens={",".intercalate (hlens.map toString)} sto=same wt=same {rdOut}"
   Id.run do
     let mut fails : List String := []
     let mut tags : List String := []
@@ -169,6 +169,12 @@ def judgeBuild (d : DictRt) (ops : String) (h : Header) (as : List AVP) (impl : 
     | some w =>
       if w ≠ "same" then
         fails := "C02:written-image-differs-from-serialised-image" :: "C01:written-image-not-reproduced-by-read-and-serialise" :: fails
+    | none => pure ()
+    -- ... and the image SerializeTo writes into a larger scratch buffer, with the message untouched
+    match kv impl "sto" with
+    | some w =>
+      if w ≠ "same" then
+        fails := "C02:serializeto-image-differs-from-serialised-image" :: "C01:serializeto-image-not-the-message-image" :: fails
     | none => pure ()
     if wf then
       tags := "wfmsg" :: tags
